@@ -104,3 +104,37 @@ def merkle_proof_verify(ex, i):
     r = merkle_proof.verify(disp(leaves[i]), [disp(tam)], j, disp(root))
     return {"verify_returns_bool": sor(r == True, r == False),   # noqa: E712
             "accepts_exactly_the_untampered_branch_at_the_true_index": iff(r == True, sand(d == 0, j == i))}   # noqa: E712
+
+
+@ob("C17", "merkle_branch_inner_node_hook_sees_exactly_what_is_hashed", quick=[dict(depth=d) for d in (1, 2, 3)], thorough=[dict(depth=d) for d in (1, 2, 3, 4, 5)],
+    bound="leaf and `depth` siblings symbolic (32 octets each), leaf index symbolic over 0..2^depth+1: the inner-node hook (the CVE-2017-12842 guard's entry point) is called once per level with exactly the "
+          "64 octets that level hashes -- sibling||node for a right child, node||sibling for a left one -- in order, and the root is the fold of those",
+    functions=["btclib.hashes.merkle_root_from_branch"], min_ok=1, timeout=300)
+def inner_node_hook(ex, depth):
+    from sx import instr
+    if not ex.concrete:
+        instr.HASH_INJECTIVE = True
+    hf = ex.uf("h256", 32, injective=True)
+    leaf = ex.bytes("leaf", 32)
+    sibs = [ex.bytes(f"s{j}_", 32) for j in range(depth)]
+    index = ex.int("index", 0, 2 ** depth + 1)
+    checked, hashed = [], []
+
+    def hook(pair):
+        checked.append(pair)
+
+    def recording_hf(b):
+        hashed.append(b)
+        return hf(b)
+    try:
+        root = hashes.merkle_root_from_branch(leaf, sibs, index, recording_hf, hook)
+    except BTClibValueError:
+        return ex.refuse("BTClibValueError")
+    node, idx, want = leaf, index, []
+    for s_ in sibs:
+        pair = ite(idx % 2 == 1, s_ + node, node + s_)
+        want.append(pair)
+        node = hf(pair)
+        idx = idx // 2
+    same = lambda a, b: len(a) == len(b) and sand(*[sand(len(x) == len(y), x == y) for x, y in zip(a, b)])   # noqa: E731
+    return {"hook_called_once_per_level": len(checked) == depth, "hook_sees_what_is_hashed": same(checked, hashed), "pairs_are_ordered_by_the_index_bits": same(hashed, want), "root_is_the_fold": root == node}
